@@ -32,6 +32,8 @@ Dict == INSTANCE Dict
 FamilyNames == {"core", "cursor", "entry", "disjoint", "bulk", "fmt", "unchecked"}
 
 Entries == [c : Classes, r : Vers, v : Vals]
+\* positional tagging of the pre-state; the unit values of a Set are not objects (tag 0)
+TagM(s) == IF Mode = "set" THEN [i \in 1..Len(s) |-> [Tag(s)[i] EXCEPT !.vt = 0]] ELSE Tag(s)
 ArgK(j, c, r) == [kt |-> 10 + j, c |-> c, r |-> r]
 ArgV(j, v) == [vt |-> 10 + j, v |-> v]
 Writes == Vals \cup {NoWrite}
@@ -134,14 +136,14 @@ Init == cap \in Caps /\ slots = <<>>
 \* whatever Family is being enumerated
 Reach ==
   \/ \E c \in Classes, r \in Vers, v \in Vals :
-        LET x == OpInsert(Tag(slots), cap, ArgK(1, c, r), ArgV(1, v)) IN slots' = Strip(x.post)
-  \/ \E c \in Classes : slots' = Strip(OpRemove(Tag(slots), c).post)
+        LET x == OpInsert(TagM(slots), cap, ArgK(1, c, r), ArgV(1, v)) IN slots' = Strip(x.post)
+  \/ \E c \in Classes : slots' = Strip(OpRemove(TagM(slots), c).post)
 
 Step ==
-  \E op \in FamilyOps(Tag(slots)) :
-     LET r == Apply(Tag(slots), cap, op) IN
+  \E op \in FamilyOps(TagM(slots)) :
+     LET r == Apply(TagM(slots), cap, op) IN
      /\ slots' = Strip(r.post)
-     /\ (Emit => PrintT(<<"TR", ToJson(Record(op, r, AltOf(Tag(slots), cap, op)))>>))
+     /\ (Emit => PrintT(<<"TR", ToJson(Record(op, r, AltOf(TagM(slots), cap, op)))>>))
 
 Next == (Reach \/ Step) /\ UNCHANGED cap
 Spec == Init /\ [][Next]_vars
@@ -158,8 +160,8 @@ WellFormedPost(p) == Len(p) <= cap /\ \A i, j \in 1..Len(p) : p[i].c = p[j].c =>
 \* the implementation-shaped result is an outcome the ideal dictionary allows
 \* (C01, C07, C09-C13, C16, C18, C19) and leaves a well-formed container (C05)
 RefinesDict ==
-  \A op \in FamilyOps(Tag(slots)) :
-     LET ts == Tag(slots)
+  \A op \in FamilyOps(TagM(slots)) :
+     LET ts == TagM(slots)
          r == Apply(ts, cap, op)
          alt == AltOf(ts, cap, op) IN
      /\ WellFormedPost(r.post)
@@ -177,7 +179,7 @@ OwnedRetK(op, r) ==
          -> {r.ret.yield[i][1] : i \in 1..Len(r.ret.yield)}
     [] op.name \in {"s_drain", "s_into_iter"} -> {r.ret.yield[i][1] : i \in 1..Len(r.ret.yield)}
     [] op.name = "entry" /\ op.m = "occ_remove_entry" /\ r.ret[1] = "occ" -> {r.ret[2]}
-    [] op.name = "entry" /\ op.m = "vac_into_key" /\ r.ret[1] = "vac" -> {r.ret[2]}
+    [] op.name = "entry" /\ op.m = "vac_into_key" /\ r.ret[1] = "vack" -> {r.ret[2]}
     [] OTHER -> {}
 OwnedRetV(op, r) ==
   CASE op.name \in {"insert", "insert_unchecked", "remove"} /\ r.ret[1] = "val" -> {r.ret[2]}
@@ -199,8 +201,8 @@ NewVT(op, r) == IF op.name = "entry" /\ op.m = "or_default" /\ r.ret[1] \in {"va
 PairwiseDisjoint(ss) == \A i, j \in 1..Len(ss) : i < j => ss[i] \cap ss[j] = {}
 
 Conservation ==
-  \A op \in FamilyOps(Tag(slots)) :
-     LET ts == Tag(slots)
+  \A op \in FamilyOps(TagM(slots)) :
+     LET ts == TagM(slots)
          r == Apply(ts, cap, op)
          fresh == op.name \in {"from_iter", "from_array", "s_from_iter", "s_from_array"}
          preK == IF fresh THEN {} ELSE KTags(ts)
@@ -214,7 +216,7 @@ Conservation ==
 \* C18: inside its contract the unsafe fast path is the safe call, slot for slot
 UncheckedAgrees ==
   \A c \in Classes, r \in Vers, v \in Vals :
-     LET ts == Tag(slots)
+     LET ts == TagM(slots)
          k == ArgK(1, c, r) IN
      UncheckedPre(ts, cap, k) => OpInsertUnchecked(ts, cap, k, ArgV(1, v)) = OpInsert(ts, cap, k, ArgV(1, v))
 
@@ -223,7 +225,7 @@ UncheckedAgrees ==
 DisjointAgrees ==
   \A ks \in UNION {[1..j -> Classes] : j \in 0..MaxKs} :
      ~HasDupKeys(ks) =>
-        LET ts == Tag(slots)
+        LET ts == TagM(slots)
             idx == DisjointUnchecked(ts, ks) IN
         /\ \A j \in 1..Len(ks) : idx[j] = Find(ts, ks[j])
         /\ \A i, j \in 1..Len(ks) : (i # j /\ idx[i] # 0) => idx[i] # idx[j]
